@@ -194,6 +194,7 @@ type ChunkReader struct {
 	FailErr   error
 	FailStyle int  // 0: (0,err) once the offset is reached; 1: deliver the bytes before the offset together with err
 	Faulted   bool // the failure was actually delivered
+	Transient bool // the failure is delivered once; afterwards the data continues where it stopped
 	Budget    int
 	MaxPos    int
 }
@@ -216,7 +217,7 @@ func (c *ChunkReader) Read(p []byte) (int, error) {
 		return 0, nil
 	}
 	limit := len(c.Data)
-	failing := c.FailAt >= 0 && c.FailAt <= limit
+	failing := c.FailAt >= 0 && c.FailAt <= limit && !(c.Transient && c.Faulted)
 	if failing {
 		limit = c.FailAt
 	}
